@@ -157,8 +157,13 @@ type caseRun struct {
 	// measured mode hook
 	onFirstLock func(ks []*sop.LockKey)
 	firstDone   bool
+	busySectors bool // measured mode: every sector-lock attempt inside the loop body is answered "busy"
 	mu          sync.Mutex
+	pending     [][3]string
 }
+
+// fail defers an oracle failure until the case's op lines are written (so the replay carries the input).
+func (h *caseRun) fail(sig, what, detail string) { h.pending = append(h.pending, [3]string{sig, what, detail}) }
 
 type deco struct {
 	sop.L2Cache
@@ -244,11 +249,11 @@ func (d *deco) Lock(ctx context.Context, dur time.Duration, ks []*sop.LockKey) (
 	h.il++
 	// direct oracle (loop_checks_time_first): a lock attempt is never made once the budget is exhausted
 	if h.budgetExceeded(pre.clock) {
-		h.s.Fail("C15/lock-attempt-after-deadline", "the phase-1 loop called Lock(nodesKeys) although the budget was already exhausted at the loop head",
+		h.fail("C15/lock-attempt-after-deadline", "the phase-1 loop called Lock(nodesKeys) although the budget was already exhausted at the loop head",
 			fmt.Sprintf("clock=%dms maxTime=%dms deadline=%d attempt=%d", pre.clock, h.maxTime, h.dlMs, h.il))
 	}
 	if pre.partial {
-		h.s.Fail("C15/partial-hold-while-waiting", "the transaction came back to the loop head holding a proper subset of its node locks",
+		h.fail("C15/partial-hold-while-waiting", "the transaction came back to the loop head holding a proper subset of its node locks",
 			fmt.Sprintf("attempt=%d keys=%d", h.il, pre.nkeys))
 	}
 	h.clock.Advance(dir.dt)
@@ -284,9 +289,9 @@ func (d *deco) Lock(ctx context.Context, dur time.Duration, ks []*sop.LockKey) (
 				h.raw.Unlock(ctx, []*sop.LockKey{fk})
 				if ok2 {
 					ev.out = "granted"
-					h.s.Fail("C15/lock-granted-over-foreign-holder", "Lock was granted although another owner holds one of the keys", fk.Key)
+					h.fail("C15/lock-granted-over-foreign-holder", "Lock was granted although another owner holds one of the keys", fk.Key)
 				} else if n > 0 {
-					h.s.Fail("C15/lock-refused-leaves-partial-hold", "a refused Lock left some of the keys locked by the caller", fmt.Sprintf("%d of %d", n, len(ks)))
+					h.fail("C15/lock-refused-leaves-partial-hold", "a refused Lock left some of the keys locked by the caller", fmt.Sprintf("%d of %d", n, len(ks)))
 				}
 				h.s.Hit("lock_refused_real_j" + fmt.Sprint(min(dir.j%len(sorted), 3)))
 				return ok2, owner, err
@@ -344,6 +349,14 @@ func (d *deco) IsLocked(ctx context.Context, ks []*sop.LockKey) (bool, error) {
 
 func (d *deco) DualLock(ctx context.Context, dur time.Duration, ks []*sop.LockKey) (bool, sop.UUID, error) {
 	h := d.h
+	if h != nil && h.active && h.busySectors {
+		st := stack()
+		if has(st, "(*Transaction).phase1Commit") && !has(st, "(*Transaction).rollback") && len(st) > 0 &&
+			(strings.HasSuffix(st[0], "(*hashmap).findAndAdd") || strings.HasSuffix(st[0], "(*hashmap).lockFileBlockRegion")) {
+			return false, h.foreign, nil
+		}
+		return d.L2Cache.DualLock(ctx, dur, ks)
+	}
 	if h == nil || !h.active || h.onFirstLock != nil {
 		return d.L2Cache.DualLock(ctx, dur, ks)
 	}
@@ -808,6 +821,9 @@ func runLoopCase(s *hx.Session, sc scen) error {
 	s.Op("final", fmt.Sprintf("exit=%s iter=%d retry=%d", fc, iter, retry))
 
 	// ---- direct oracles on the outcome ----
+	for _, f := range h.pending {
+		s.Fail(f[0], f[1], f[2])
+	}
 	s.Hit("scen:" + sc.name)
 	s.Hit("exit:" + fc)
 	if len(h.events) > 1 {
@@ -826,8 +842,8 @@ func runLoopCase(s *hx.Session, sc scen) error {
 	if fc == "retrycap" && retry != common.VerifC15Phase1MaxRetry() {
 		s.Fail("C15/retry-cap-not-at-limit", "the loop gave up with the retry-limit error at a different count", fmt.Sprint(retry))
 	}
-	if retry > common.VerifC15Phase1MaxRetry() {
-		s.Fail("C15/retry-cap-exceeded", "more unsuccessful rounds than phase1CommitMaxRetryCount", fmt.Sprint(retry))
+	if retry > 30 {
+		s.Fail("C15/retry-cap-exceeded", "more than 30 unsuccessful rounds in one commit (the property's retry cap)", fmt.Sprint(retry))
 	}
 	// give-up releases: nothing of the transaction's node keys stays locked, and a follow-up on the same keys commits
 	after := h.observe()
@@ -1183,6 +1199,22 @@ func runMeasured(s *hx.Session, p *hx.Prng, kind int) error {
 			// nothing of the waiter's stays locked; after the holder's TTL a follow-up commits
 			time.Sleep(time.Until(t0.Add(ttl + 50*time.Millisecond)))
 		}
+	case 5: // C15-F1 on the wall clock: sector cap shrunk to 3 s (package variable), budget 300 ms, sector lock busy
+		mt := 300 * time.Millisecond
+		hdr(mt)
+		old := fs.VerifC15SetLockSectorRetryTimeout(3 * time.Second)
+		h := &caseRun{s: s, raw: raw, clock: &fakeClock{base: time.Now()}, foreign: sop.NewUUID(), busySectors: true}
+		h.onFirstLock = func([]*sop.LockKey) {}
+		h.active = true
+		d, err := openAndCommit(dir, &deco{L2Cache: raw, h: h}, mt, txnOps{upd: []int{0}}, "w", nil)
+		h.active = false
+		fs.VerifC15SetLockSectorRetryTimeout(old)
+		s.Hit("measured:sector-busy-budget-300ms:" + classify(err))
+		if d > mt+2*time.Second {
+			s.Fail("C15/sector-lock-wait-ignores-maxtime",
+				"MEASUREMENT: with the sector-lock cap shrunk to 3 s and maxTime = 300 ms, Commit returned only after the sector cap, not after its budget + 2 s",
+				fmt.Sprintf("took %v (%v)", d, err))
+		}
 	case 3, 4: // a stalled holder: T1 parked inside its commit while holding its node locks
 		stall := 500 * time.Millisecond
 		mt2 := 3 * time.Second
@@ -1265,7 +1297,7 @@ func run(o hx.RunOpts) error {
 			return fmt.Errorf("%s: %w", sc.name, err)
 		}
 	}
-	n := o.N(140, 1500)
+	n := o.N(140, 2600)
 	for i := 0; i < n; i++ {
 		sc := genScen(p, i)
 		if err := runLoopCase(s, sc); err != nil {
@@ -1276,9 +1308,9 @@ func run(o hx.RunOpts) error {
 	for i := 0; i < n; i++ {
 		runTableCase(s, p)
 	}
-	rounds := o.N(1, 6)
+	rounds := o.N(1, 8)
 	for r := 0; r < rounds; r++ {
-		for k := 0; k < 5; k++ {
+		for k := 0; k < 6; k++ {
 			if err := runMeasured(s, p, k); err != nil {
 				return fmt.Errorf("measured %d: %w", k, err)
 			}
